@@ -348,7 +348,14 @@ class BehavioralRTLIRToVVisitorL1( bir.BehavioralRTLIRNodeVisitor ):
       if not _one_bit:
         l, col, r = value.rfind('['), value.rfind(':'), value.rfind(']')
         if -1 < l < col < r:
-          _value = value[:col] + ']'
+          if value[:col].rstrip().endswith( '+' ):
+            # Indexed part-select `x[base +: width]`: the sign bit is bit
+            # base + width - 1
+            base = value[l+1:col].rstrip()[:-1].rstrip()
+            width = value[col+1:r].strip()
+            _value = f"{value[:l]}[{base} + {width} - 1]"
+          else:
+            _value = value[:col] + ']'
           return one_bit_template.format( **locals() )
 
     elif isinstance( node.value, bir.Index ):
